@@ -96,6 +96,23 @@ def node_iter(shape):
             yield (i,) + rest
 
 
+def probe_flags():
+    """(abs_eps, akima_fix) of the tree under test, from two public-API probes."""
+    from openmdao.components.interp_util.interp import InterpND
+    g = np.array([-5., -4., -2., -1.])
+    try:
+        InterpND(method='slinear', points=g, values=2 * g).interpolate(np.array([[-1.0]]))
+        abs_eps = True
+    except Exception:
+        abs_eps = False
+    try:
+        t = InterpND(method='akima', points=np.array([0., 1., 2., 4.]), values=np.array([1., 3., 2., 7.]))
+        akima_fix = abs(float(np.asarray(t.interpolate(np.array([[1.5]]))).ravel()[0]) - 2.5) < 1e-9
+    except Exception:
+        akima_fix = False
+    return abs_eps, akima_fix
+
+
 class C15(Property):
     pid = 'C15'
     workers = 1
@@ -145,6 +162,18 @@ class C15(Property):
     trusted_extra = ["NumPy array indexing/einsum used by the tables (modelled as explicit sums)"]
 
     # -- generation ------------------------------------------------------------------------------
+    abs_eps = False
+    akima_fix = False
+
+    def translate(self):
+        """Detect which variant of two known-defective spots the tree under test has, so that the
+        model follows the code as it is (before and after the proposed `fix:` commits)."""
+        self.abs_eps, self.akima_fix = probe_flags()
+        return ['bounds tolerance variant: %s' % ('1e-14*|grid[-1]| (repaired)' if self.abs_eps
+                                                  else '1e-14*grid[-1] (as pinned)'),
+                'akima end conditions: %s' % ('independent blocks (repaired)' if self.akima_fix
+                                              else 'elif chain (as pinned)')]
+
     def setup(self, tier):
         import openmdao.api  # noqa: F401  (import before any timing-sensitive work)
 
@@ -432,7 +461,8 @@ class C15(Property):
         for pts in case['batches']:
             reqs.append({'op': 'interp', 'method': case['method'],
                          'vec': bool(is_fixed(case['method']) and len(pts) > 1),
-                         'extrapolate': case['extrapolate'], 'absEps': False,
+                         'extrapolate': case['extrapolate'], 'absEps': bool(self.abs_eps),
+                         'akimaFix': bool(self.akima_fix),
                          'grids': case['grids'], 'values': case['values'], 'pts': pts})
         return reqs
 
